@@ -18,6 +18,12 @@ deriving Repr, DecidableEq, Hashable, Inhabited
 
 instance : LawfulBEq Nd := inferInstance
 
+/-- key of a node in the unique table (`_pred`): the triple `(level, low, high)` -/
+def Nd.key (n : Nd) : List Int := [(n.lvl : Int), n.lo, n.hi]
+
+/-- key of the computed table (`_ite_table`) -/
+def iteKey (g u v : Int) : List Int := [g, u, v]
+
 /-- Python exceptions, as the harness canonicalises them. -/
 inductive Err
   | value | key | type | assertion | runtime | needsReordering
@@ -52,10 +58,10 @@ deriving Repr, Inhabited
 
 structure Mgr where
   tbl : Tbl := {}
-  pred : HashMap Nd Nat := {}
+  pred : TreeMap (List Int) Nat := {}
   ref : TreeMap Nat Nat := (({} : TreeMap Nat Nat).insert 1 1)
   minFree : Nat := 2
-  cache : HashMap (Int × Int × Int) Int := {}
+  cache : TreeMap (List Int) Int := {}
   lastLen : Option Nat := none
   ctx : Bool := false
   /-- harness-only: fire the reordering request at the k-th eligible call -/
